@@ -180,38 +180,51 @@ def run_check(
 
     # ---- violations: minimise, confirm in a fresh interpreter, report
     reported: List[Dict[str, Any]] = []
-    seen_keys = set()
+    unreplayable: List[str] = []
     viol_runs = [r for r in results if r["violations"]]
+    by_sig: Dict[str, List[Dict[str, Any]]] = {}
     for r in viol_runs:
         v = violation_from_json(r["violations"][0])
-        k = v.prop + "|" + v.sig
-        if k in seen_keys or len(seen_keys) >= 4:
-            continue
-        seen_keys.add(k)
-        trace = r["trace"]
-        small, used = shrink(engine, trace, v, known=known, focus=ctx["focus"], budget=300)
-        if small is None:
-            harness_errors.append(
-                f"violation of run {r['i']} (seed {r['seed']}, {v.key()}, sig={v.sig}) did not replay in-process"
-            )
-            continue
-        small["violation"] = v.to_json()
-        small["shrink_executions"] = used
-        small["original_len"] = len(trace["ops"])
-        rdir = os.environ.get("VERIF_REPLAY_DIR") or os.path.join(VERIF_ROOT, "replays")
-        os.makedirs(rdir, exist_ok=True)
-        path = os.path.join(rdir, f"{prop}-{r['seed']}.json")
-        with open(path, "w") as f:
-            json.dump(small, f, indent=1, sort_keys=True)
-        got = confirm_fresh(engine_name, path, prop)
-        if got is None or got.split()[0] != v.key():
-            harness_errors.append(f"minimised trace {path} did not fail the same way in a fresh interpreter: {got}")
-            continue
-        reported.append({"path": path, "violation": v.to_json(), "len": len(small["ops"])})
-        print(f"VIOLATION property={prop} replay={path}")
-        if not quiet:
-            print(f"  class={v.cls} sig={v.sig} seed={r['seed']} ops={len(small['ops'])} (from {len(trace['ops'])})")
-            print(f"  detail={json.dumps(v.detail, sort_keys=True, default=str)[:600]}")
+        by_sig.setdefault(v.prop + "|" + v.sig, []).append(r)
+    for k in list(by_sig)[:4]:
+        # a run whose violation does not replay (in-process, then in a fresh interpreter) is never reported;
+        # the next run with the same signature is tried instead (state leaking between runs of one worker
+        # process, e.g. a process-global cache introduced into the code under test, shows up this way)
+        for r in by_sig[k][:5]:
+            v = violation_from_json(r["violations"][0])
+            trace = r["trace"]
+            small, used = shrink(engine, trace, v, known=known, focus=ctx["focus"], budget=300)
+            if small is None:
+                unreplayable.append(f"violation of run {r['i']} (seed {r['seed']}, {v.key()}, sig={v.sig}) did not replay in-process")
+                continue
+            small["violation"] = v.to_json()
+            small["shrink_executions"] = used
+            small["original_len"] = len(trace["ops"])
+            rdir = os.environ.get("VERIF_REPLAY_DIR") or os.path.join(VERIF_ROOT, "replays")
+            os.makedirs(rdir, exist_ok=True)
+            path = os.path.join(rdir, f"{prop}-{r['seed']}.json")
+            with open(path, "w") as f:
+                json.dump(small, f, indent=1, sort_keys=True)
+            got = confirm_fresh(engine_name, path, prop)
+            if got is None or got.split()[0] != v.key():
+                unreplayable.append(f"minimised trace {path} did not fail the same way in a fresh interpreter: {got}")
+                try:
+                    os.remove(path)
+                except OSError:
+                    pass
+                continue
+            reported.append({"path": path, "violation": v.to_json(), "len": len(small["ops"])})
+            print(f"VIOLATION property={prop} replay={path}")
+            if not quiet:
+                print(f"  class={v.cls} sig={v.sig} seed={r['seed']} ops={len(small['ops'])} (from {len(trace['ops'])})")
+                print(f"  detail={json.dumps(v.detail, sort_keys=True, default=str)[:600]}")
+            break
+    if unreplayable and not reported:
+        # observed but never reproduced: not believed as a violation, and not silently dropped either
+        harness_errors.extend(unreplayable)
+    elif unreplayable and not quiet:
+        for u in unreplayable[:3]:
+            print("note: " + u)
 
     wall = time.time() - t0
     write_evidence(
